@@ -94,6 +94,7 @@ fn dispatch(w: &[&str]) -> String {
         "tokenc" => tokop::run_enc(&w[1..]),
         "tokencs" => tokop::run_enc_split(&w[1..]),
         "tokdec" => tokop::run_dec(&w[1..]),
+        "tokdec2" => tokop::run_dec2(&w[1..]),
         _ => "bad-op".into()
     }
 }
